@@ -113,8 +113,13 @@ impl TcpListener {
                 .get(&client_ip)
                 .expect("client host missing")
                 .tcp
-                .flow_control(client_pair);
-            TcpStream::new(pair, rx, bidi.invert())
+                .flow_control(client_pair)
+                .invert();
+            world
+                .current_host_mut()
+                .tcp
+                .set_flow_control(pair, bidi.clone());
+            TcpStream::new(pair, rx, bidi)
         });
 
         tracing::trace!(target: TRACING_TARGET, src = ?self.local_addr, dst = ?origin, "Accepted");
